@@ -278,10 +278,7 @@ theorem C07_remove_clears {E : Env} (hw : WfEnv E) (ops : List Op) (s : St) (h :
       · next hod =>
         split at hr
         · cases hr; simp [hos, hod]
-        · obtain ⟨r1, _, hr⟩ := bind_ok.mp hr
-          obtain ⟨r2, _, hr⟩ := bind_ok.mp hr
-          cases pure_ok.mp hr
-          simp [hos, hod]
+        · cases hr; simp [hos, hod]
       · next hod => cases hr; simp [hos, hod]
   have hgone : o ∉ s'.statics ∧ o ∉ s'.dynamics := by
     rw [hlists.1, hlists.2]
@@ -306,12 +303,12 @@ theorem C07_remove_clears {E : Env} (hw : WfEnv E) (ops : List Op) (s : St) (h :
       · simp [List.mem_filter, hx]
       · rfl
 
-/-- **remove_total**, ALL histories: in every state reached by any sequence of operations, `remove_obstacle` returns
-    normally — for an obstacle of the scenario (no KeyError from `set.remove` / `dict[t]`, also after centre-only
-    assignments) and for any other one (warning only) -/
-theorem C07_remove_total {E : Env} (hw : WfEnv E) (ops : List Op) (s : St) (h : run E St.init ops = .ok s) (o : Id) :
-    ∃ s', remove E s o = .ok s' :=
-  remove_total_weak hw (C07_weak_inv_run hw ops St.init s (weak_init E) h) o
+/-- **remove_total**, EVERY state: `remove_obstacle` returns normally whatever the state — for an obstacle of the scenario (no
+    KeyError from `set.remove` / `dict[t]`, no AttributeError from a missing lanelet: since 680e9aa / d431666 every loop of
+    `_remove_*_obstacle_from_lanelets` is guarded) and for any other one (warning only).  No invariant, no `WfEnv` is needed;
+    histories with a changing lanelet network: CRProps/C07c.lean. -/
+theorem C07_remove_total (E : Env) (s : St) (o : Id) : ∃ s', remove E s o = .ok s' :=
+  remove_total E s o
 
 /-- adding an obstacle with a fresh id never fails in a state reached by any history (also a re-added obstacle that still
     carries its assignment) -/
@@ -363,7 +360,7 @@ theorem C07_run_total {E : Env} (hw : WfEnv E) : ∀ (ops : List Op) (s : St), W
     have hstep : ∃ s1, step E s op = .ok s1 := by
       cases op with
       | add o => exact add_total hw hi.base ha.1
-      | remove o => exact remove_total_weak hw hi o
+      | remove o => exact remove_total E s o
       | assign ids ts co => exact assign_total' hw ids ts co s ha.1
       | reopenXml => exact reopenXml_total hw hi.base
       | reopenPb => exact reopenPb_total hw hi.base
